@@ -548,6 +548,7 @@ where
                         cluster,
                         sfn,
                         att,
+                        ClusterId::EMPTY,
                     )?,
                 };
 
